@@ -37,7 +37,7 @@ def range_pool(rng, spec):
                 continue
             out.append({'start': a, 'end': b, 'abs': True, 't0': None, 'ts': False})
     rel_pts = sorted(set([0, 3, 8, 12, 16, 24, last - first, last - first + 1, last - first + 8, last - first + 16, last - first + 80,
-                          max(0, (last - first) // 2)]))
+                          max(0, (last - first) // 2)] + [k + f for k in (0, 8, 16, 8 * max(0, (last - first) // 16)) for f in (1, 4, 5, 7)]))
     for a in [None] + rel_pts:
         for b in [None] + rel_pts:
             if a is None and b is None:
@@ -101,7 +101,8 @@ def cases_for_log(ctx, spec, budget):
         return rng.choice([DEFAULT_FLAGS, [1, 1, 0, 1, 1], [0, 1, 1, 1, 0], rng.choice(ALL_FLAGS)])
 
     def mk(**kw):
-        c = {'log': spec, 'flags': DEFAULT_FLAGS, 'max_bytes': None, 'srcs': None, 'types': None, 'types_form': None, 'range': None, 'late_srcs': None}
+        c = {'log': spec, 'flags': DEFAULT_FLAGS, 'max_bytes': None, 'srcs': None, 'srcs_form': None, 'types': None, 'types_form': None, 'range': None,
+             'late_srcs': None, 'options': None}
         c.update(kw)
         out.append(c)
     mk()
@@ -122,6 +123,29 @@ def cases_for_log(ctx, spec, budget):
             mk(types=ts, types_form=form, flags=rnd_flags())
             if rng.random() < 0.4:
                 mk(types=ts, types_form=form, range=rng.choice(rp), flags=rnd_flags())
+    # axis: type filters made only of untimed types (their place in a time range comes from the timed messages they exclude)
+    untimed_present = sorted({m[1] for m in ms if m[3] is None and m[1] not in K.TIMED})
+    if untimed_present:
+        for ts in [untimed_present] + [[t] for t in untimed_present]:
+            for r in rng.sample(rp, min(len(rp), 10)):
+                mk(types=ts, range=r, flags=rnd_flags())
+    # axis: argument forms: one type / one source id given bare, lists and tuples
+    for t in present_types[:3]:
+        mk(types=[t], types_form=rng.choice(['single', 'single_class']), range=rng.choice([None, rng.choice(rp)]), flags=rnd_flags())
+    for ss in src_sets:
+        if ss is not None:
+            mk(srcs=ss, srcs_form=rng.choice(['int', 'list', 'tuple']), types=rng.choice(type_sets), flags=rnd_flags())
+    # axis: options that must not matter (progress / gap warnings, the index loaded from a file saved by an earlier open)
+    for _ in range(12):
+        mk(options={'index': rng.choice(['saved', 'saved', 'fresh']), 'warn_on_gaps': rng.random() < 0.5, 'show_progress': rng.random() < 0.5},
+           types=rng.choice(type_sets), range=rng.choice([None, rng.choice(rp)]), srcs=rng.choice(src_sets) if rng.random() < 0.3 else None,
+           flags=rnd_flags())
+    # axis: a source filter with every flag combination that lacks the header (the sampling forces return_header on and
+    # must restore it)
+    for ss in src_sets:
+        if ss is not None:
+            for fl in ([0, 1, 0, 0, 0], [0, 0, 1, 1, 0], [0, 0, 0, 0, 1], [0, 0, 0, 0, 0], [0, 1, 1, 1, 1]):
+                mk(srcs=ss, flags=fl, types=rng.choice([None, rng.choice(type_sets)]))
     # axis: ranges alone and with sources
     for r in rp[:max(8, budget // 8)]:
         mk(range=r, flags=rnd_flags())
@@ -147,8 +171,22 @@ def max_bytes_cases(ctx, spec, msgs, fsize, per_boundary=1):
     present_types = sorted({m['type'] for m in msgs})
     present_srcs = sorted({m['src'] for m in msgs})
     rp = range_pool(rng, spec)
+    # the limit falls inside / at the end of message k while type, source or time filters skip message k: the
+    # messages after it must still be cut (and the ones before it returned), also when only index-derived pieces are asked for
+    for k, m in enumerate(msgs):
+        for p in (m['off'] + 1, m['off'] + K.HEADER_SIZE, m['off'] + m['size'] // 2, m['off'] + m['size'] - 1, m['off'] + m['size']):
+            fl = rng.choice([[0, 0, 0, 1, 1], [0, 0, 0, 0, 1], [0, 0, 0, 0, 0], [0, 0, 0, 1, 0], DEFAULT_FLAGS])
+            other_types = [t for t in present_types if t != m['type']]
+            other_srcs = [x for x in present_srcs if x != m['src']]
+            if other_types:
+                out.append({'log': spec, 'flags': fl, 'max_bytes': p, 'srcs': None, 'types': other_types, 'range': None, 'late_srcs': None})
+            if other_srcs:
+                out.append({'log': spec, 'flags': fl, 'max_bytes': p, 'srcs': other_srcs, 'types': None, 'range': None, 'late_srcs': None})
+            if m['t8'] is not None and rng.random() < 0.5:
+                out.append({'log': spec, 'flags': fl, 'max_bytes': p, 'srcs': None, 'types': None, 'late_srcs': None,
+                            'range': {'start': m['t8'] + 1, 'end': None, 'abs': True, 't0': None, 'ts': False}})
     for p in sorted(x for x in pts if x >= 0):
-        out.append({'log': spec, 'flags': rng.choice([DEFAULT_FLAGS, [1, 0, 0, 1, 1], [0, 0, 1, 1, 0]]), 'max_bytes': p,
+        out.append({'log': spec, 'flags': rng.choice([DEFAULT_FLAGS, [1, 0, 0, 1, 1], [0, 0, 1, 1, 0], [0, 0, 0, 1, 1], [0, 0, 0, 0, 1]]), 'max_bytes': p,
                     'srcs': None, 'types': None, 'range': None, 'late_srcs': None})
         if rng.random() < 0.5:
             out.append({'log': spec, 'flags': rng.choice(ALL_FLAGS), 'max_bytes': p,
@@ -328,6 +366,12 @@ def judge(c, rec):
                     'results kept after the iteration (list(reader)) are not what was yielded: pieces sharing one object across results: %s; %s'
                     % (impl.get('alias'), 'no value difference' if k is None else 'result %d was %s when yielded and is %s after the iteration'
                        % (k, json.dumps(impl['res'][k])[:200], json.dumps(impl['res_after'][k])[:200]))))
+    if impl.get('inputs_same') is False:
+        out.append(('violation', {'outcome': 'arguments-modified', 'class': 'caller-arguments-modified', 'features': features(c)},
+                    'the TimeRange / message_types / source_ids objects handed to the reader were modified by it'))
+    if 'res' in impl and impl.get('flags_after') is not None and impl['flags_after'] != [int(bool(x)) for x in c['flags']]:
+        out.append(('violation', {'outcome': 'options-changed', 'class': 'return-options-not-restored', 'features': features(c)},
+                    'return_* options after construction and iteration are %s, requested %s' % (impl['flags_after'], c['flags'])))
     # text-level oracle on the time bounds (independent of the Coq SPEC)
     if 'res' in impl and isinstance(impl.get('shadow'), list) and c.get('range') is not None:
         out += time_oracle(c, rec)
@@ -384,7 +428,7 @@ def time_oracle(c, rec):
 # ---------------------------------------------------------------------------------------------------------
 
 def shrink(ev, case, sig, rounds=12):
-    cur = {k: case.get(k) for k in ('log', 'flags', 'max_bytes', 'srcs', 'types', 'types_form', 'range', 'late_srcs')}
+    cur = {k: case.get(k) for k in ('log', 'flags', 'max_bytes', 'srcs', 'srcs_form', 'types', 'types_form', 'range', 'late_srcs', 'options')}
     for rnd in range(rounds):
         cands = []
         log = cur['log']
@@ -435,11 +479,16 @@ def describe(c, rec):
             'impl': rec['impl'].get('err') or rec['impl'].get('shadow'),
             'spec_offsets': [o for o, _ in rec['spec'][1]] if rec['spec'][0] == 'ok' else rec['spec'],
             'model': [o for o, _ in rec['model'][1]] if rec['model'][0] == 'ok' else rec['model'],
-            'case': {k: c.get(k) for k in ('log', 'flags', 'max_bytes', 'srcs', 'types', 'types_form', 'range', 'late_srcs')}}
+            'case': {k: c.get(k) for k in ('log', 'flags', 'max_bytes', 'srcs', 'srcs_form', 'types', 'types_form', 'range', 'late_srcs', 'options')}}
 
 
 def run(ctx):
-    consts = gen_c10.generate()
+    try:
+        consts = gen_c10.generate()
+    except Exception as e:      # a translator failure is a failed obligation; the search for a failing input still runs
+        ctx.obligation('translators/gen_c10.py evaluates the reader / indexer constants', False, 'translator', repr(e)[:400])
+        ctx.broken_proof('translator gen_c10 failed: %r' % (e,))
+        consts = {'header_size': K.HEADER_SIZE, 'populate_count': K.POPULATE_COUNT}
     K.set_consts(consts)
     ctx.notes.append('generated constants: %r' % consts)
     if not ctx.coq():
@@ -471,7 +520,7 @@ def run(ctx):
             continue
         seen.add(c['logkey'])
         lg = ev.logs[c['logkey']]
-        if len(lg['msgs']) <= 14:
+        if len(lg['msgs']) <= 14 and max(m['size'] for m in lg['msgs'] or [{'size': 0}]) < 1000:
             mb_cases += [dict(x, origin=c['origin']) for x in max_bytes_cases(ctx, c['log'], lg['msgs'], len(lg['data']))]
     # one log larger than a read block: max_bytes truncates the index to whole blocks
     big = K.big_log(ctx.rng, 620 if not ctx.thorough else 1300)
@@ -492,7 +541,7 @@ def run(ctx):
     for c in cases:
         rec = recs[c['id']]
         nm = len(rec['log']['msgs'])
-        key = (c['logkey'], json.dumps([c['flags'], c['max_bytes'], c['srcs'], c['types'], c.get('types_form'), c['range'], c.get('late_srcs')]))
+        key = (c['logkey'], json.dumps([c['flags'], c['max_bytes'], c['srcs'], c.get('srcs_form'), c['types'], c.get('types_form'), c['range'], c.get('late_srcs'), c.get('options')]))
         ctx.case(key, nontrivial=nm > 0)
         ctx.count('log:' + c['origin'].split(':')[0])
         ctx.count('filters:' + features(c))
@@ -536,7 +585,7 @@ def run(ctx):
                             'seen after 12 messages of its type, one log > 80 KiB; per log: all 32 return_* combinations (with and without filters), all subsets '
                             'of <= 4 present types (+ an absent type) and type filters of 1 .. 40 requested types (mostly absent, spread over the 16-bit range, duplicates, set / list / tuple / payload classes) on logs with 7 present types incl. one of > 1000 messages, x sampled ranges (absolute given or inferred, each end a float / Timestamp / invalid Timestamp / None in all mixtures, preset t0, open and closed, '
                             'whole and fractional, before / inside / after the log), all subsets of present source ids (+ an absent one) through the constructor '
-                            'and through filter_in_place, max_bytes at every message start / header end / message end +-1. A case is distinct by (log, options); '
+                            'and through filter_in_place, max_bytes at every message start / header end / message end +-1. fractional first P1 time with fractional relative ends, large messages (1 KiB .. 16 384 B), P1 times up to 1.3e9 s; max_bytes inside a message that the type / source / time filter skips, with index-only flag sets; bare / list / tuple argument forms; index loaded from a saved file, progress / gap-warning options, .p1log / .bin file names; caller arguments and return_* options unchanged afterwards. A case is distinct by (log, options); '
                             'non-trivial when the log is not empty. Every case is run a second time with all return_* options on to identify the messages returned; yielded pieces are compared both inside the loop and after collecting all results (list(reader)), and header / payload objects must be distinct between results.') % len(K.fixed_logs())
     ctx.coverage['exhaustive'] = False
     ctx.trusted_base += ['Coq 8.16.1 kernel + vm_compute', 'extraction (ExtrOcamlBasic only), ocaml/conv.ml + c10_driver.ml',
